@@ -290,6 +290,24 @@ def moment_runs(rep, tier, rng):
                         E_, V_ = op.calculate_expectation_and_variance(combi)      # reading the moments out must not change them
                     mx = combi.get_total_num_points()
                     E, V = [float(x) for x in E], [float(x) for x in V]
+                    # the second way the library offers to obtain the moments: from the exposed points and combined weights of the same grid
+                    try:
+                        with impl.quiet(), impl.watchdog(300):
+                            E2, V2 = op.calculate_expectation_and_variance(combi, use_combiinstance_solution=False)
+                        E2, V2 = [float(x) for x in np.atleast_1d(E2)], [float(x) for x in np.atleast_1d(V2)]
+                        agree = len(E2) == 3 and all(abs(x - y) <= 1e-9 * max(1.0, abs(x)) for x, y in zip(E + V, E2 + V2))
+                        aff2 = len(E2) == 3 and abs(E2[1] - (c * E2[0] + e)) <= 1e-9 * max(1.0, abs(E2[0]), abs(c * E2[0] + e)) \
+                            and abs(V2[1] - c * c * V2[0]) <= 1e-8 * max(1.0, c * c * abs(V2[0]), e * e, abs(c * E2[0] + e) ** 2) and abs(E2[2] - 4.25) <= 1e-9 * 4.25
+                        rep.residual('C15_PointsWeightsReadout', agree and aff2)
+                        if not (agree and aff2):
+                            rep.violation('C15_ExpectationAffine' if agree else 'C15_MomentsPathsAgree', {'distribution': kind, 'boundary': bnd, 'D': D, 'points_weights_readout': True},
+                                          {'case': name, 'evaluation': k + 1, 'from_combined_solution': [E, V], 'from_points_and_weights': [E2, V2]},
+                                          what='%s after %d evaluations: moments from points and weights %s differ from / do not transform like the combined moments %s' % (name, k + 1, [E2, V2], [E, V]))
+                    except impl.Timeout:
+                        raise
+                    except Exception as ex:
+                        rep.violation('C15_NoException', {'distribution': kind, 'boundary': bnd, 'exception': type(ex).__name__, 'points_weights_readout': True},
+                                      {'case': name, 'exception': repr(ex)}, what='%s: moments from points and weights raised %r' % (name, ex))
                     same = all(abs(x - float(y)) <= 1e-12 * max(1.0, abs(x)) for x, y in zip(E + V, list(E_) + list(V_)))
                     rep.residual('C15_ReadoutRepeatable', same)
                     if not same:
